@@ -531,7 +531,19 @@ func c16Run(schema, replaySchema graphql.Schema, t *c16Trial, chCap int) (coq st
 					for k := 0; k < n; k++ {
 						outs[k] = coqBool(rec[k] == 1)
 					}
-					retTerm = "ORet (RetResp (RespFull " + coqList(outs) + "))"
+					// the errors the returned result really carries, by the field their path names
+					errs := []string{}
+					for _, e := range returned.Errors {
+						idx := -1
+						if len(e.Path) == 1 {
+							fmt.Sscanf(fmt.Sprint(e.Path[0]), "f%d", &idx)
+						}
+						if idx < 1 {
+							idx = 1000 // an error that no field accounts for
+						}
+						errs = append(errs, coqN(idx-1)+"%nat")
+					}
+					retTerm = "ORet (RetResp (RespFull " + coqList(outs) + " " + coqList(errs) + "))"
 				}
 			}
 		}
